@@ -167,7 +167,7 @@ def find_witness(prop, pcfg, o, seed):
         if re.search(rp['for'], o.name):
             try:
                 from . import engines
-                w = {'driver': rp['driver'], 'bin': rp.get('bin', 'replay'), 'args': rp.get('args', {}), 'history': rp.get('history', ''), 'target': rp.get('target', 'replay-target'), 'features': rp.get('features')}
+                w = {'driver': rp['driver'], 'bin': rp.get('bin', 'replay'), 'args': rp.get('args', {}), 'history': rp.get('history', ''), 'target': rp.get('target', 'replay-target'), 'features': rp.get('features'), 'panic_is_violation': rp.get('panic_is_violation', True)}
                 rr = engines.replay_witness(w)
                 w['replayed_on_real_code'] = rr
                 if rr.get('reproduced'):
@@ -320,7 +320,7 @@ def check_property(prop, tier, seed, verbose=False):
             if tier != 'thorough' and not rp.get('quick'): continue
             try:
                 from . import engines
-                w = {'driver': rp['driver'], 'bin': rp.get('bin', 'replay'), 'args': rp.get('args', {}), 'history': rp.get('history', ''), 'target': rp.get('target', 'replay-target'), 'features': rp.get('features')}
+                w = {'driver': rp['driver'], 'bin': rp.get('bin', 'replay'), 'args': rp.get('args', {}), 'history': rp.get('history', ''), 'target': rp.get('target', 'replay-target'), 'features': rp.get('features'), 'panic_is_violation': rp.get('panic_is_violation', True)}
                 rr = engines.replay_witness(w)
                 last = (rr.get('output', '').strip().split('\n') or [''])[-1][:300]
                 cover['bounded'].append({'search': rp['driver'], 'args': rp.get('args', {}), 'result': last, 'hit': bool(rr.get('reproduced'))})
@@ -379,7 +379,7 @@ def check_property(prop, tier, seed, verbose=False):
             if not rp.get('on_undecided'): continue
             try:
                 from . import engines
-                w = {'driver': rp['driver'], 'bin': rp.get('bin', 'replay'), 'args': rp.get('args', {}), 'history': rp.get('history', ''), 'target': rp.get('target', 'replay-target'), 'features': rp.get('features')}
+                w = {'driver': rp['driver'], 'bin': rp.get('bin', 'replay'), 'args': rp.get('args', {}), 'history': rp.get('history', ''), 'target': rp.get('target', 'replay-target'), 'features': rp.get('features'), 'panic_is_violation': rp.get('panic_is_violation', True)}
                 rr = engines.replay_witness(w)
                 w['replayed_on_real_code'] = rr
                 if rr.get('reproduced'):
